@@ -11,6 +11,7 @@ import (
 	"flag"
 	"fmt"
 	"os"
+	"runtime/debug"
 )
 
 func main() {
@@ -27,6 +28,9 @@ func main() {
 	start := fs.Int("start", 0, "first scenario index (scenario i always uses the i-th forked generator)")
 	fs.Parse(os.Args[2:])
 
+	// unbounded recursion in the library must kill this process quickly, not after 1 GB of stack;
+	// the orchestrator records the scenario as crashed and restarts after it
+	debug.SetMaxStack(48 << 20)
 	w := bufio.NewWriterSize(os.Stdout, 1<<20)
 	defer w.Flush()
 	master := newRng(*seed)
